@@ -9,6 +9,7 @@ mod val;
 
 use arrow::array::{Array, ArrayRef};
 use arrow::datatypes::{DataType, Field, Fields, IntervalUnit, Schema, SchemaRef, TimeUnit, UnionMode};
+use datafusion_common::hash_utils::{create_hashes, RandomState};
 use datafusion_expr::EmitTo;
 use datafusion_physical_plan::aggregates::group_values::multi_group_by::supported_schema;
 use datafusion_physical_plan::aggregates::group_values::{new_group_values, GroupValues, GroupValuesRows};
@@ -158,6 +159,7 @@ fn configs(miri: bool) -> Vec<Cfg> {
         add("m:Dict(Int32,Utf8),Int8", vec![n(dict(Int32, Utf8)), n(Int8)], &[Ctor::Factory]);
         add("m:FixedSizeBinary(3),Boolean", vec![n(FixedSizeBinary(3)), n(Boolean)], &[Ctor::Factory]);
         add("m:Int32,List<Int32>", vec![n(Int32), n(List(list_field(Int32)))], &[Ctor::Factory]);
+        add("m:Int8,Int64,Int64", vec![n(Int8), n(Int64), n(Int64)], &[Ctor::Factory]);
         return out;
     }
     // every single-column implementation
@@ -251,6 +253,9 @@ fn configs(miri: bool) -> Vec<Cfg> {
     add("m:Utf8View!,Utf8View", vec![nn(Utf8View), n(Utf8View)], &both);
     add("m:Dict(Int32,Utf8View),Utf8View", vec![n(dict(Int32, Utf8View)), n(Utf8View)], &both);
     add("m:Map<Utf8,Int32>,Int32", vec![n(map_type(Utf8, Int32)), n(Int32)], &both);
+    // NULL-symmetric same-typed columns: distinct keys with equal 64-bit hashes (collision chains)
+    add("m:Int8,Int64,Int64", vec![n(Int8), n(Int64), n(Int64)], &both);
+    add("m:Utf8,Int32,Date32,Int32", vec![n(Utf8), n(Int32), n(Date32), n(Int32)], &both);
     // multi column schemas that fall back to GroupValuesRows
     add("r:Int32,Decimal32", vec![n(Int32), n(Decimal32(9, 2))], &both);
     add("r:Utf8,REE<Int32,Utf8>", vec![n(Utf8), n(ree_type(Int32, Utf8))], &both);
@@ -280,13 +285,18 @@ enum Hazard {
     ReuseAfterEmitAll,
     /// clear_shrink while groups are live (not preceded by emit(EmitTo::All))
     ClearWithLiveGroups,
+    /// emit(EmitTo::First(n)) while at least two sets of live keys share a 64-bit row hash
+    PartialEmitWithCollisionChains,
 }
+
+const HAZARDS: [Hazard; 3] = [Hazard::ReuseAfterEmitAll, Hazard::ClearWithLiveGroups, Hazard::PartialEmitWithCollisionChains];
 
 impl Hazard {
     fn name(&self) -> &'static str {
         match self {
             Hazard::ReuseAfterEmitAll => "reuse-after-emit-all",
             Hazard::ClearWithLiveGroups => "clear-with-live-groups",
+            Hazard::PartialEmitWithCollisionChains => "partial-emit-with-hash-collision-chains",
         }
     }
 }
@@ -300,6 +310,9 @@ enum Script {
     ClearWithLiveGroups,
     /// intern A; emit(First(2)); intern A+B; emit(First(1)); emit(All)
     PartialEmit,
+    /// keys whose 64-bit row hashes collide by construction (NULL-symmetric same-typed columns,
+    /// NULL list vs empty list): intern; emit(First(1)); re-intern; emit(First(2)); re-intern
+    HashCollisionPartialEmit,
 }
 
 #[derive(Clone)]
@@ -381,6 +394,8 @@ struct Hist<'a> {
     corrupted: bool,
     /// set once a hazard of `p.bad` has been exercised in this history
     tainted: Option<Hazard>,
+    /// emit(All) removed groups and neither clear_shrink nor intern has run since
+    drained_by_emit_all: bool,
 }
 
 type Fail = (String, Json);
@@ -453,8 +468,9 @@ impl<'a> Hist<'a> {
     /// intern `arrays` (logical rows `rows`) and check rules (i), (ii), (iii)
     fn intern(&mut self, kind: &'static str, rows: &[Vec<Val>], arrays: &[ArrayRef], knobs: &[&'static str]) -> Result<(), Fail> {
         self.bump(kind);
-        if self.last_structural == "emit-all" {
+        if self.drained_by_emit_all {
             self.exercise(Hazard::ReuseAfterEmitAll);
+            self.drained_by_emit_all = false;
         }
         let len_before = self.keys.len();
         let mut groups: Vec<usize> = vec![usize::MAX - 7; 3]; // stale content must be overwritten
@@ -601,6 +617,13 @@ impl<'a> Hist<'a> {
         let len_before = self.keys.len();
         let n = first.unwrap_or(len_before);
         let kind: &'static str = if first.is_some() { "emit-first" } else { "emit-all" };
+        if first.is_some() && self.collision_chains() >= 2 {
+            if self.avoid(Hazard::PartialEmitWithCollisionChains) {
+                self.stats.hazards_avoided += 1;
+                return Ok(());
+            }
+            self.exercise(Hazard::PartialEmitWithCollisionChains);
+        }
         self.bump(kind);
         self.trace.push(json!({"op": kind, "n": n, "len_before": len_before}));
         let to = match first {
@@ -668,6 +691,9 @@ impl<'a> Hist<'a> {
         if first.is_some() && n > 0 && n < len_before {
             self.stats.partial_emits += 1;
         }
+        if first.is_none() && len_before > 0 {
+            self.drained_by_emit_all = true;
+        }
         self.check_len(kind)?;
         self.last_structural = kind;
         // every surviving key's id is old - n: re-intern all known keys, no group may be created
@@ -707,6 +733,7 @@ impl<'a> Hist<'a> {
             }
         }
         self.ids.clear();
+        self.drained_by_emit_all = false;
         self.check_len("clear")?;
         self.last_structural = "clear";
         Ok(())
@@ -730,6 +757,80 @@ impl<'a> Hist<'a> {
             }
         }
         out
+    }
+
+    /// Rows whose `create_hashes` values collide although the keys differ: NULL cells leave the
+    /// running hash untouched, so (.., x, NULL) and (.., NULL, x) collide for two same-typed
+    /// columns after the first, and a NULL list hashes like an empty list.
+    fn collision_rows(&mut self) -> Vec<Vec<Val>> {
+        let n = self.cfg.cols.len();
+        let filler = |s: &mut Self, c: usize| -> Val {
+            if s.cfg.cols[c].1 || s.doms[c].is_empty() { val::null_of(&s.cfg.cols[c].0, &mut s.rng) } else { s.doms[c][0].clone() }
+        };
+        let mut out = vec![];
+        let mut pair = None;
+        for i in 1..n {
+            for j in i + 1..n {
+                let (a, b) = (&self.cfg.cols[i], &self.cfg.cols[j]);
+                let same_native = a.0.is_primitive() && b.0.is_primitive() && a.0.primitive_width() == b.0.primitive_width() && a.0.is_floating() == b.0.is_floating();
+                if same_native && a.1 && b.1 && !matches!(a.0, DataType::Interval(_)) && !matches!(b.0, DataType::Interval(_)) && pair.is_none() {
+                    pair = Some((i, j));
+                }
+            }
+        }
+        if let Some((i, j)) = pair {
+            // values representable in both columns
+            for v in [Val::Int(0), Val::Int(1), Val::Int(2), Val::Int(3), Val::Int(5)] {
+                let mut r1: Vec<Val> = (0..n).map(|c| filler(self, c)).collect();
+                let mut r2 = r1.clone();
+                r1[i] = v.clone();
+                r1[j] = Val::Null;
+                r2[i] = Val::Null;
+                r2[j] = v.clone();
+                out.push(r1);
+                out.push(r2);
+            }
+            return out;
+        }
+        let list_col = (0..n).find(|c| matches!(self.cfg.cols[*c].0, DataType::List(_) | DataType::LargeList(_) | DataType::Map(_, _)) && self.cfg.cols[*c].1);
+        if let (Some(lc), true) = (list_col, n > 1) {
+            let other = (0..n).find(|c| *c != lc).unwrap();
+            let dom = self.doms[other].clone();
+            for k in dom.iter().take(5) {
+                let mut r1: Vec<Val> = (0..n).map(|c| filler(self, c)).collect();
+                r1[other] = k.clone();
+                let mut r2 = r1.clone();
+                r1[lc] = Val::List(vec![]);
+                r2[lc] = Val::Null;
+                out.push(r1);
+                out.push(r2);
+            }
+        }
+        out
+    }
+
+    /// number of 64-bit row hash values shared by two or more live keys. Only used to *name* the
+    /// sequence being exercised, never for a verdict. Such collisions are structural (NULL cells
+    /// are skipped by the hash combine), hence independent of the seed used here.
+    fn collision_chains(&mut self) -> usize {
+        if self.keys.len() < 4 || self.cfg.cols.len() < 2 {
+            return 0;
+        }
+        let arrays: Vec<ArrayRef> = (0..self.cfg.cols.len())
+            .map(|c| {
+                let col: Vec<Val> = self.keys.iter().map(|r| r[c].clone()).collect();
+                Builder::canonical(&mut self.rng).build(&self.cfg.cols[c].0, &col, true)
+            })
+            .collect();
+        let mut hashes = vec![0u64; self.keys.len()];
+        if create_hashes(&arrays, &RandomState::with_seed(0), &mut hashes).is_err() {
+            return 0;
+        }
+        let mut by: HashMap<u64, usize> = HashMap::new();
+        for h in hashes {
+            *by.entry(h).or_insert(0) += 1;
+        }
+        by.values().filter(|n| **n >= 2).count()
     }
 
     fn intern_plain(&mut self, rows: &[Vec<Val>]) -> Result<(), Fail> {
@@ -762,6 +863,17 @@ impl<'a> Hist<'a> {
                 b.reverse();
                 self.intern_plain(&b)?;
                 self.intern_plain(&all)
+            }
+            Script::HashCollisionPartialEmit => {
+                let rows = self.collision_rows();
+                if rows.is_empty() {
+                    return Err(("SKIP:no-constructible-hash-collision".into(), Json::Null));
+                }
+                self.intern_plain(&rows)?;
+                self.emit(Some(1))?;
+                self.intern_plain(&rows)?;
+                self.emit(Some(2))?;
+                self.intern_plain(&rows)
             }
             Script::PartialEmit => {
                 self.intern_plain(&all)?;
@@ -860,7 +972,7 @@ fn run_history(cfg: &Cfg, seed: u64, path: &[u64], p: HistParams) -> Outcome {
         let mut d = domain(&cfg.cols[c].0, o, if p.huge { 64 } else { 48 }, &mut rng);
         if p.huge {
             // keep the very large values and a few small ones
-            d.retain(|v| matches!(v, Val::Bytes(b) if b.len() > 100_000 || b.len() < 16));
+            d.retain(|v| !matches!(v, Val::Bytes(b) if b.len() <= 100_000 && b.len() >= 16));
             d.truncate(12);
         } else {
             d.truncate(cap);
@@ -887,6 +999,7 @@ fn run_history(cfg: &Cfg, seed: u64, path: &[u64], p: HistParams) -> Outcome {
         last_structural: "",
         corrupted: false,
         tainted: None,
+        drained_by_emit_all: false,
     };
     let script = h.p.script;
     if script != Script::Random {
@@ -949,7 +1062,7 @@ fn run(args: &Args) -> i32 {
     rep.assume("key equality: NULL = NULL, NaN = NaN (same bits); -0.0 = +0.0 only for top level float columns, as primitive.rs / row.rs document; nested and dictionary floats never mix signed zeros or NaN payloads");
     rep.assume("emit is only issued after the first intern call (GroupValuesRows::emit states `Can not emit from empty rows`); columns of non-nullable fields never carry NULLs");
     rep.assume("within one batch the ids given to new keys are checked as a set, not in first-seen order (the vectorised multi-column store documents a different order)");
-    rep.assume("a store whose scripted probe fails on `reuse-after-emit-all` / `clear-with-live-groups` is kept away from that sequence in 3 of 4 random histories (always, where the failure would be an out-of-bounds get_unchecked)");
+    rep.assume("a store whose scripted probe fails on `reuse-after-emit-all` / `clear-with-live-groups` / `partial-emit-with-hash-collision-chains` is kept away from that sequence in 3 of 4 random histories (always, where the failure would be an out-of-bounds get_unchecked); a violation in a history that went through such a sequence carries the sequence's name as its signature");
     let selftest = args.opt_u64("selftest", 0);
     let only = args.opt_str("only").map(|s| s.to_string());
     let cfgs: Vec<Cfg> = configs(miri).into_iter().filter(|c| only.as_ref().map(|o| c.label.contains(o.as_str())).unwrap_or(true)).collect();
@@ -974,7 +1087,11 @@ fn run(args: &Args) -> i32 {
             let (stats, verdict) = match out {
                 Outcome::Done(s) => (s, None),
                 Outcome::Skip(reason, s) => {
-                    rep.skip(&format!("{reason} [{}]", cfg.label));
+                    if reason.starts_with("no-constructible") {
+                        rep.skip(&reason);
+                    } else {
+                        rep.skip(&format!("{reason} [{}]", cfg.label));
+                    }
                     (s, None)
                 }
                 Outcome::Violation(sig, detail, s) => (s, Some((sig, detail))),
@@ -1023,7 +1140,7 @@ fn run(args: &Args) -> i32 {
                 rep.sample(json!({"config": cfg.to_json(), "history_index": case.index, "ops": stats.ops, "groups_created": stats.new_groups, "max_live_groups": stats.max_len}));
             }
             if let Some((sig, detail)) = verdict {
-                for h in [Hazard::ReuseAfterEmitAll, Hazard::ClearWithLiveGroups] {
+                for h in HAZARDS {
                     if sig.starts_with(h.name()) {
                         bad.lock().unwrap().insert((imp.clone(), h));
                     }
@@ -1043,14 +1160,18 @@ fn run(args: &Args) -> i32 {
     };
 
     // 1. scripted probes: stores whose failure mode is a plain panic first
-    let scripted = |ci: usize, script: Script, k: u64| Case { cfg: ci, index: 2_000_000 + k, p: HistParams { script, ..base.clone() } };
+    // (the self-test corrupts observations of the random histories only: the probes must stay truthful)
+    let scripted = |ci: usize, script: Script, k: u64| Case { cfg: ci, index: 2_000_000 + k, p: HistParams { script, selftest: 0, ..base.clone() } };
     let mut wave_a = vec![];
     let mut wave_b = vec![];
     for (ci, c) in cfgs.iter().enumerate() {
         let w = if abort_prone(c) { &mut wave_b } else { &mut wave_a };
         w.push(ci);
     }
-    exec(wave_a.iter().flat_map(|ci| [scripted(*ci, Script::ReuseAfterEmitAll, 0), scripted(*ci, Script::ClearWithLiveGroups, 1), scripted(*ci, Script::PartialEmit, 2)]).collect());
+    exec(wave_a
+        .iter()
+        .flat_map(|ci| [scripted(*ci, Script::ReuseAfterEmitAll, 0), scripted(*ci, Script::ClearWithLiveGroups, 1), scripted(*ci, Script::PartialEmit, 2), scripted(*ci, Script::HashCollisionPartialEmit, 3)])
+        .collect());
     let known_bad = |cfg: &Cfg, h: Hazard| bad.lock().unwrap().contains(&(cfg.impl_name(), h));
     let mut cases_b = vec![];
     for ci in &wave_b {
@@ -1061,15 +1182,17 @@ fn run(args: &Args) -> i32 {
         }
         cases_b.push(scripted(*ci, Script::ClearWithLiveGroups, 1));
         cases_b.push(scripted(*ci, Script::PartialEmit, 2));
+        cases_b.push(scripted(*ci, Script::HashCollisionPartialEmit, 3));
     }
     exec(cases_b);
 
     // 2. seeded random histories
     let params_for = |cfg: &Cfg, h: u64, mut p: HistParams| -> HistParams {
-        for hz in [Hazard::ReuseAfterEmitAll, Hazard::ClearWithLiveGroups] {
+        for hz in HAZARDS {
             if known_bad(cfg, hz) {
                 p.bad.push(hz);
-                if h % 4 != 0 || (hz == Hazard::ReuseAfterEmitAll && abort_prone(cfg)) {
+                // under Miri a sequence known to break is left to the scripted probes alone
+                if miri || h % 4 != 0 || (hz == Hazard::ReuseAfterEmitAll && abort_prone(cfg)) {
                     p.avoid.push(hz);
                 }
             }
